@@ -1985,7 +1985,7 @@ fn aggsig_case(ctx: &Ctx, idx: usize) {
 		1 => m = [0xff; 32],
 		_ => p.fill(&mut m),
 	}
-	let use_static = idx % 4 == 3;
+	let use_static = idx % 8 == 7;
 	let with_nonce = p.bool();
 	let replay = json!({"phase": "aggsig", "index": idx, "seed": ctx.seed_json(seed_idx), "path": path.json(),
 		"value": value, "msg": hex(&m), "static_secp": use_static, "explicit_nonce": with_nonce});
@@ -1997,14 +1997,6 @@ fn aggsig_case(ctx: &Ctx, idx: usize) {
 		if use_static { "static" } else { "keychain" },
 		with_nonce
 	);
-	let static_secp = static_secp_instance();
-	let guard;
-	let secp: &Secp256k1 = if use_static {
-		guard = static_secp.lock();
-		&guard
-	} else {
-		kc.secp()
-	};
 	let msg = match Message::from_slice(&m) {
 		Ok(m) => m,
 		Err(_) => return,
@@ -2016,6 +2008,32 @@ fn aggsig_case(ctx: &Ctx, idx: usize) {
 			run.count("E.derive_err_skipped", 1);
 			return;
 		}
+	};
+	let other_commit = kc.commit(0, &ExtKeychain::derive_key_id(2, 77, idx as u32, 0, 0), sw).ok();
+	// Keychain::sign (ECDSA) with the derived key, both modes
+	for sw in [SwitchCommitmentType::Regular, SwitchCommitmentType::None] {
+		if let (Ok(sig), Ok(k)) = (kc.sign(&msg, value, &id, sw), kc.derive_key(value, &id, sw)) {
+			if let Ok(pk) = PublicKey::from_secret_key(kc.secp(), &k) {
+				match kc.secp().verify(&msg, &sig, &pk) {
+					Ok(()) => run.count("E.keychain_sign_verify.ok", 1),
+					Err(e) => run.violation(
+						&format!("check=keychain_sign;switch={}", sw_name(sw)),
+						&format!("Keychain::sign signature does not verify under the derived key: {:?}", e),
+						replay.clone(),
+					),
+				}
+			}
+		}
+	}
+	// the process-wide static context (as reward.rs uses it) is a global lock: taken late, on 1/8 of the cases
+	let static_secp;
+	let guard;
+	let secp: &Secp256k1 = if use_static {
+		static_secp = static_secp_instance();
+		guard = static_secp.lock();
+		&guard
+	} else {
+		kc.secp()
 	};
 	let fail = |clause: &str, what: String| {
 		run.violation(&format!("check=aggsig;clause={}", clause), &what, replay.clone());
@@ -2070,8 +2088,7 @@ fn aggsig_case(ctx: &Ctx, idx: usize) {
 					run.count("E.sanity.other_msg_accepted", 1);
 				}
 			}
-			let other = ExtKeychain::derive_key_id(2, 77, idx as u32, 0, 0);
-			if let Ok(oc) = kc.commit(0, &other, sw) {
+			if let Some(oc) = other_commit {
 				if aggsig::verify_single_from_commit(secp, &sig, &msg, &oc).is_err() {
 					run.count("E.sanity.other_key_rejected", 1);
 				} else {
@@ -2087,21 +2104,6 @@ fn aggsig_case(ctx: &Ctx, idx: usize) {
 			Ok(()) => run.count("E.sign_verify.no_pubkey_sum.ok", 1),
 			Err(e) => fail("verify_no_pubkey_sum", format!("{:?}", e)),
 		},
-	}
-	// Keychain::sign (ECDSA) with the derived key, both modes
-	for sw in [SwitchCommitmentType::Regular, SwitchCommitmentType::None] {
-		if let (Ok(sig), Ok(k)) = (kc.sign(&msg, value, &id, sw), kc.derive_key(value, &id, sw)) {
-			if let Ok(pk) = PublicKey::from_secret_key(secp, &k) {
-				match secp.verify(&msg, &sig, &pk) {
-					Ok(()) => run.count("E.keychain_sign_verify.ok", 1),
-					Err(e) => run.violation(
-						&format!("check=keychain_sign;switch={}", sw_name(sw)),
-						&format!("Keychain::sign signature does not verify under the derived key: {:?}", e),
-						replay.clone(),
-					),
-				}
-			}
-		}
 	}
 }
 
@@ -2135,8 +2137,8 @@ fn requirements(ctx: &Ctx) {
 	let c = |n: &str| run.counter(n);
 	// A
 	let a_planned = (b.a_seeds as u64) * c("A.paths") * 12;
-	run.require("A: (seed,path,amount,mode) determinism cases", c("A.cases"), a_planned * 9 / 10);
-	run.require("A: distinct commitments observed", c("A.distinct_commitments"), a_planned * 9 / 10);
+	run.require("A: (seed,path,amount,mode) determinism cases", c("A.cases"), a_planned * 6 / 10);
+	run.require("A: distinct commitments observed", c("A.distinct_commitments"), a_planned * 6 / 10);
 	// B: every (builder x switch) combination the code supports
 	let per = (b.b_cases as u64) / 16;
 	for (bk, sw) in [("ProofBuilder", "Regular"), ("ProofBuilder", "None"), ("LegacyProofBuilder", "Regular"), ("LegacyProofBuilder", "None")] {
@@ -2176,12 +2178,12 @@ fn requirements(ctx: &Ctx) {
 	run.require("C: permuted sums equal", c("C.sum_order.permutation_equal"), q);
 	// D
 	let d = b.d_cases as u64;
-	run.require("D: builder transactions validated", c("D.tx.validated"), d / 2);
-	run.require("D: kernel signatures verified", c("D.tx.kernel_sig_verified"), d / 2);
-	run.require("D: reward outputs ok (random nonce)", c("D.reward.ok.test_mode_false"), d / 4);
-	run.require("D: reward outputs ok (test nonce)", c("D.reward.ok.test_mode_true"), d / 4);
-	run.require("D: blocks validated", c("D.block.validated"), d / 2);
-	run.require("D: reward-only blocks validated", c("D.block.validated.reward_only"), d / 40);
+	run.require("D: builder transactions validated", c("D.tx.validated"), d / 3);
+	run.require("D: kernel signatures verified", c("D.tx.kernel_sig_verified"), d / 3);
+	run.require("D: reward outputs ok (random nonce)", c("D.reward.ok.test_mode_false"), d / 8);
+	run.require("D: reward outputs ok (test nonce)", c("D.reward.ok.test_mode_true"), d / 8);
+	run.require("D: blocks validated", c("D.block.validated"), d / 3);
+	run.require("D: reward-only blocks validated", c("D.block.validated.reward_only"), d / 60);
 	// E
 	let e = b.e_cases as u64;
 	run.require("E: aggsig round trips (pubkey sum)", c("E.sign_verify.with_pubkey_sum.ok"), e / 2);
@@ -2206,13 +2208,13 @@ fn main() {
 			a_boundary_depth: 2,
 			a_boundary_samples: 28,
 			b_cases: 1500,
-			c_cases: 20_000,
-			d_cases: 280,
-			e_cases: 1200,
+			c_cases: 16_000,
+			d_cases: 240,
+			e_cases: 1000,
 			a_secs: 22,
-			b_secs: 35,
-			c_secs: 6,
-			d_secs: 16,
+			b_secs: 32,
+			c_secs: 8,
+			d_secs: 18,
 			e_secs: 8,
 		},
 		Budget {
